@@ -2,6 +2,7 @@ import Tmv.Drv.Core
 import Tmv.Model.MempoolV0
 import Tmv.Model.MempoolV1
 import Tmv.Model.MempoolV0Async
+import Tmv.Model.MempoolV1Split
 /-! Line-protocol driver for C12: the v0 and v1 mempool models. After every op the observation
 `n=<Size> b=<SizeBytes> all=<ReapMaxTxs(-1)>` is appended. -/
 namespace Tmv.Drv.C12
@@ -11,6 +12,7 @@ inductive Pool
   | v0 (s : V0.State)
   | v1 (s : V1.State) (d : Nat)   -- d = TTLDuration in logical time units (cfg ttldur=, 0 = off)
   | a0 (a : V0.AState)      -- v0 over the asynchronous FIFO client (cfg async=1)
+  | s1 (a : V1.SState)      -- v1 with CheckTx calls in flight (cfg split=1; ops begin / finish)
 
 def lowerHex (s : String) : Bool :=
   s = "-" ∨ s = "." ∨ (s.length > 0 ∧ s.length % 2 = 0 ∧
@@ -41,6 +43,7 @@ def showTxs (l : List Bytes) : String :=
 def obs : Pool → String
   | .v0 s => s!" | n={s.txs.length} b={s.txsBytes} all={showTxs (V0.reapMaxTxs s (-1))}"
   | .v1 s _ => s!" | n={s.txs.length} b={s.txsBytes} all={showTxs (V1.reapMaxTxs s (-1))}"
+  | .s1 a => s!" | n={a.s.txs.length} b={a.s.txsBytes} all={showTxs (V1.reapMaxTxs a.s (-1))} pend={a.pending.length}"
   | .a0 a => s!" | n={a.s.txs.length} b={a.s.txsBytes} all={showTxs (V0.reapMaxTxs a.s (-1))} q={a.queue.length}"
 
 /-- recorded peer ids of the tx just submitted (sorted; "-" = not in the pool) -/
@@ -78,6 +81,10 @@ def parseCfg (toks : List String) : Option Pool := do
     let d ← match kv toks "ttldur" with
       | none => some 0
       | some x => x.toNat?
+    if kv toks "split" = some "1" then
+      pure (.s1 (V1.sinit { size := size, maxTxsBytes := maxb, maxTxBytes := maxtx, cacheSize := cache,
+                            keepInvalid := keep, recheck := rc, ttlNumBlocks := ttl, ttlDuration := ttld } h))
+    else
     pure (.v1 (V1.init { size := size, maxTxsBytes := maxb, maxTxBytes := maxtx, cacheSize := cache,
                          keepInvalid := keep, recheck := rc, ttlNumBlocks := ttl,
                          ttlDuration := ttld || decide (d > 0) } h) d)
@@ -156,12 +163,10 @@ def step (st : Option Pool) (toks : List String) : Option Pool × String :=
            else if [0xc1] ∈ V0.keys a.s then "hazard-fail rejected-tx-kept"
            else "hazard-ok")
     | some "tie" =>
-      -- known finding v1.reap.order-undefined-on-equal-timestamps: the comparator of
-      -- allEntriesSorted does not order two entries with equal priority and timestamp
+      -- two entries with equal priority and timestamp: the stable sort keeps their arrival order
       let a : V1.WTx := { tx := [0xa1], height := 1, seq := 0, gas := 0, prio := 1, sender := "" }
       let b : V1.WTx := { tx := [0xb1], height := 1, seq := 0, gas := 0, prio := 1, sender := "" }
-      (st, if V1.reapBefore a b = false ∧ V1.reapBefore b a = false then "hazard-fail order-varies"
-           else "hazard-ok")
+      (st, if V1.sortBy V1.reapBefore [a, b] = [a, b] then "hazard-ok" else "hazard-fail order-varies")
     | some "none" => (st, "hazard-ok")
     | _ => (st, "bad-op")
   | "stress" :: rest =>
@@ -197,6 +202,25 @@ def step (st : Option Pool) (toks : List String) : Option Pool × String :=
           | .a0 a =>
             let r := V0.asend a tx v
             (some (.a0 r.1), showV0Res r.2 ++ obs (.a0 r.1))
+          | .s1 _ => (st, "bad-op")
+        | _, _, _ => (st, "bad-op")
+      | "begin" =>
+        match p, (kv rest "tx").bind parseTx, getInt rest "peer" with
+        | .s1 a, some tx, some peer =>
+          if peer < 0 ∨ peer > 65535 then (st, "bad-op") else
+          let r := V1.sbegin a tx peer.toNat
+          let res := match r.2 with
+            | .ok _ => "pending" | .tooLarge => "too-large" | .pre => "pre" | .inCache => "in-cache"
+          (some (.s1 r.1), res ++ obs (.s1 r.1))
+        | _, _, _ => (st, "bad-op")
+      | "finish" =>
+        match p, getInt rest "i", parseVerdict rest with
+        | .s1 a, some i, some v =>
+          if i < 0 ∨ i.toNat ≥ a.pending.length then (st, "bad-op") else
+          let tx := (a.pending[i.toNat]?.map (·.tx)).getD []
+          let r := V1.sfinish a i.toNat v
+          let ps := (r.1.s.txs.find? (fun e => e.tx = tx)).map (·.peers)
+          (some (.s1 r.1), "ok me=" ++ showMe r.2 ++ " p=" ++ showPeers ps ++ obs (.s1 r.1))
         | _, _, _ => (st, "bad-op")
       | "deliver" =>
         match p, getInt rest "n" with
@@ -219,6 +243,7 @@ def step (st : Option Pool) (toks : List String) : Option Pool × String :=
               let s' := txs.foldl (fun a tx => (V0.checkTx a tx v).1) s
               (some (.v0 s'), s!"admitted={(s'.txs.length : Int) - s.txs.length} | n={s'.txs.length} b={s'.txsBytes} dup=0 reap={(V0.reapMaxTxs s' (-1)).length}")
             | .a0 _ => (st, "bad-op")
+            | .s1 _ => (st, "bad-op")
             | .v1 s d =>
               let s' := txs.foldl (fun a tx => (V1.checkTx a tx v).1) s
               (some (.v1 s' d), s!"admitted={(s'.txs.length : Int) - s.txs.length} | n={s'.txs.length} b={s'.txsBytes} dup=0 reap={(V1.reapMaxTxs s' (-1)).length}")
@@ -240,6 +265,9 @@ def step (st : Option Pool) (toks : List String) : Option Pool × String :=
               | d, some t => fun w => decide (t - w.seq > d)
             let s' := V1.update s h block pre post (rvFun rv) expired
             (some (.v1 s' d), "ok" ++ obs (.v1 s' d))
+          | .s1 a =>
+            let a' := V1.supdate a h block pre post (rvFun rv) (fun _ => true)
+            (some (.s1 a'), "ok" ++ obs (.s1 a'))
           | .a0 a =>
             let a' := V0.aupdate a h block pre post (rvFun rv)
             (some (.a0 a'), (if a'.panicked then "panic" else "ok") ++ obs (.a0 a'))
@@ -249,7 +277,21 @@ def step (st : Option Pool) (toks : List String) : Option Pool × String :=
         match p with
         | .v0 s => let p' := Pool.v0 (V0.flush s); (some p', "ok" ++ obs p')
         | .v1 s d => let p' := Pool.v1 (V1.flush s) d; (some p', "ok" ++ obs p')
-        | .a0 _ => (st, "bad-op")
+        | .a0 a =>
+          -- allowed only while no recheck answer is pending (V0.Allowed); else refused, not performed
+          if a.queue.all (fun r => match r with | .recheck _ => false | .first _ _ => true) then
+            let a' := V0.aflush a
+            (some (.a0 a'), "ok" ++ obs (.a0 a'))
+          else (st, "unsafe" ++ obs p)
+        | .s1 _ => (st, "bad-op")
+      | "rmkey" =>
+        match p, (kv rest "tx").bind parseTx with
+        | .a0 a, some tx =>
+          if a.queue.all (fun r => r.isRecheckOf tx == false) then
+            let a' := V0.aremoveByKey a tx
+            (some (.a0 a'), "ok" ++ obs (.a0 a'))
+          else (st, "unsafe" ++ obs p)
+        | _, _ => (st, "bad-op")
       | "reap" =>
         match getInt rest "bytes", getInt rest "gas" with
         | some b, some g =>
@@ -257,6 +299,7 @@ def step (st : Option Pool) (toks : List String) : Option Pool × String :=
           | .v0 s => (st, showTxs (V0.reapMaxBytesMaxGas s b g) ++ obs p)
           | .v1 s d => (st, showTxs (V1.reapMaxBytesMaxGas s b g) ++ obs p)
           | .a0 a => (st, showTxs (V0.reapMaxBytesMaxGas a.s b g) ++ obs p)
+          | .s1 a => (st, showTxs (V1.reapMaxBytesMaxGas a.s b g) ++ obs p)
         | _, _ => (st, "bad-op")
       | "reapn" =>
         match getInt rest "n" with
@@ -266,6 +309,7 @@ def step (st : Option Pool) (toks : List String) : Option Pool × String :=
           | .v0 s => (st, showTxs (V0.reapMaxTxs s n) ++ obs p)
           | .v1 s d => (st, showTxs (V1.reapMaxTxs s n) ++ obs p)
           | .a0 a => (st, showTxs (V0.reapMaxTxs a.s n) ++ obs p)
+          | .s1 a => (st, showTxs (V1.reapMaxTxs a.s n) ++ obs p)
         | none => (st, "bad-op")
       | _ => (st, "bad-op")
   | [] => (st, "bad-op")
